@@ -1135,7 +1135,8 @@ def unpack_named_tuple(spec: ValueSpec) -> Expression:
             for unpacker in unpackers:
                 lines.append(f"fields.append({unpacker})")
         with lines.indent("except IndexError:"):
-            lines.append("pass")
+            with lines.indent("if len(fields) < len(value):"):
+                lines.append("raise")
         field_type = spec.builder.get_type_name_identifier(spec.type)
         lines.append(f"return {field_type}(*fields)")
     lines.append(
